@@ -201,7 +201,9 @@ def check(ctx):
     tests = [n for n in g.nodes if n.kind == 'if' and 'is_error_reported' in norm(n.ast.test) and any(g.dominates(n, r) for r in raises)]
     ctx.need(len(tests) >= 1, 'parallel_safe: no test of reporter.is_error_reported() guards the raise')
     tests = tests[-1:]
-    tedge = [e for e in tests[0].succ if e.label and e.label[0] == 'cond' and e.label[2] is True]
+    # the edge on which an error WAS reported (the true edge of `if reported:` or the false edge of `if not reported:`)
+    want_f = fact_key('reporter.is_error_reported()', True)
+    tedge = [e for e in tests[0].succ if e.label and e.label[0] == 'cond' and any(f.key() == want_f for f in e.facts())]
     p_ok = tedge and g.path_avoiding(tests[0], [g.exit], avoid=[], avoid_edges=[e for e in tests[0].succ if e not in tedge]) is None
     ctx.inst('R2', ps, 'reported-implies-raise', bool(p_ok), 'when an error was reported every path must raise')
     # wrapper barrier
